@@ -176,6 +176,21 @@ class Order:
                     changed = True
         return [b for b in self.sites(body, bm) if may[b]]
 
+    def can_reach(self, body, b, targets):
+        """True iff some block in `targets` is reachable from the successors of b."""
+        tset = set(targets)
+        seen = set()
+        st = list(body.succ(b))
+        while st:
+            x = st.pop()
+            if x in seen:
+                continue
+            seen.add(x)
+            if x in tset:
+                return True
+            st.extend(body.succ(x))
+        return False
+
     # ---- followed_by ----
     def followed_by(self, body, a, bm, exits="ok"):
         """-> A-site blocks from which some path reaches a selected exit without passing a
